@@ -10,6 +10,7 @@
 #ifndef BEE_H
 #define BEE_H
 #include "vcommon.h"
+#include <aws/common/allocator.h>
 
 struct bee_section {
     const char *name;
@@ -48,6 +49,22 @@ static void bee_fail(const char *clause, const char *fmt, ...) {
     do {                                                                                                         \
         if (!(cond)) bee_fail(clause, __VA_ARGS__);                                                              \
     } while (0)
+
+/* an allocator with only the two mandatory entry points (aws/common/allocator.h: mem_realloc and mem_calloc are optional):
+ * aws_mem_realloc / aws_mem_calloc then go through the library's own emulation (acquire + copy + release / acquire +
+ * zero).  Blocks come from the sanitizer's malloc: junk-filled when fresh, poisoned when released.  An environment answer
+ * like any other - sections that make library objects grow are run a second time with it (added after three seeded changes
+ * in the emulation, which no stock allocator ever enters). */
+static void *bee_min_acquire(struct aws_allocator *a, size_t n) {
+    (void)a;
+    return malloc(n ? n : 1);
+}
+static void bee_min_release(struct aws_allocator *a, void *p) {
+    (void)a;
+    free(p);
+}
+static struct aws_allocator bee_min_alloc = {.mem_acquire = bee_min_acquire, .mem_release = bee_min_release, .mem_realloc = NULL, .mem_calloc = NULL, .impl = NULL};
+static inline struct aws_allocator *bee_min_allocator(void) { return &bee_min_alloc; }
 
 /* exact-size heap block holding a copy of src (one-byte over-reads become ASan errors) */
 static uint8_t *bee_block(const void *src, size_t n) {
